@@ -423,3 +423,81 @@ Proof.
       * apply IH; simpl; lia.
       * discriminate.
 Qed.
+
+(* ------------------------------------------------------------------------------------------------------------ *)
+(* which readiness event a would-block waits for: a plain socket's send()/sendmsg() only ever reports
+   "would block on WRITE" (BlockingIOError / InterruptedError -> WouldBlockOnWrite), and then every selector wait of
+   send_all / send_all_from_iterable registers writability -- on every path *)
+Definition write_blocks_only (s : sock) : Prop :=
+  Forall (fun a => match a with SBlock w _ => w = true | _ => True end) (sk_script s).
+
+Lemma retry_send_write_waits : forall data fuel ri T s sels,
+  write_blocks_only s ->
+  Forall (fun w => w_write w = true) (rr_waits (retry_loop (sock_send data) fuel ri T s sels))
+  /\ write_blocks_only (rr_st (retry_loop (sock_send data) fuel ri T s sels)).
+Proof.
+  intros data fuel. induction fuel as [|f IH]; intros ri T s sels H; simpl.
+  - split; [constructor|assumption].
+  - unfold sock_send at 1 3. destruct s as [script wire]. unfold write_blocks_only in *. simpl in *.
+    destruct script as [|a rest]; simpl.
+    + split; constructor.
+    + inversion H as [|? ? Ha Hr]; subst.
+      destruct a as [n c|w c|c]; simpl; try (split; [constructor|assumption]).
+      simpl in Ha. subst w.
+      destruct (tmo_le0 T); simpl; [split; [constructor|assumption]|].
+      destruct (next_sel sels) as [a sels1].
+      destruct (if negb (tmo_leb T ri) then ri else T) as [wz|].
+      * destruct (negb (sa_ready a) && negb (negb (tmo_leb T ri))); simpl.
+        -- split; [constructor; [reflexivity|constructor]|assumption].
+        -- destruct (IH ri (recompute T (sa_el a)) (mk_sock rest wire) sels1 Hr) as [A B].
+           split; [constructor; [reflexivity|exact A]|exact B].
+      * destruct (sa_ready a); simpl.
+        -- destruct (IH ri T (mk_sock rest wire) sels1 Hr) as [A B].
+           split; [constructor; [reflexivity|exact A]|exact B].
+        -- split; [constructor; [reflexivity|constructor]|assumption].
+Qed.
+
+Lemma retry_top_send_write_waits : forall data fuel ri T s sels,
+  write_blocks_only s ->
+  Forall (fun w => w_write w = true) (rr_waits (retry (sock_send data) fuel ri T s sels))
+  /\ write_blocks_only (rr_st (retry (sock_send data) fuel ri T s sels)).
+Proof.
+  intros. unfold retry. destruct (tmo_neg T); [simpl; split; [constructor|assumption]|].
+  apply retry_send_write_waits; assumption.
+Qed.
+
+Lemma send_all_loop_write_waits : forall F ri fuel rest T s sels,
+  write_blocks_only s -> Forall (fun w => w_write w = true) (sr_waits (send_all_loop F ri fuel rest T s sels)).
+Proof.
+  intros F ri fuel. induction fuel as [|f IH]; intros rest T s sels H.
+  - destruct rest; constructor.
+  - destruct rest as [|b rest']; [constructor|].
+    simpl. unfold send.
+    destruct (retry_top_send_write_waits (b :: rest') F ri T s sels H) as [A B].
+    destruct (rr_out (retry (sock_send (b :: rest')) F ri T s sels)) as [sent T1| |c|]; simpl; try exact A.
+    apply Forall_app. split; [exact A|]. apply IH. exact B.
+Qed.
+
+Lemma sendmsg_loop_write_waits : forall F ri iov fuel bufs T s sels,
+  write_blocks_only s -> Forall (fun w => w_write w = true) (sr_waits (sendmsg_loop F ri iov fuel bufs T s sels)).
+Proof.
+  intros F ri iov fuel. induction fuel as [|f IH]; intros bufs T s sels H.
+  - destruct bufs; constructor.
+  - destruct bufs as [|b0 bufs']; [constructor|].
+    rewrite sendmsg_loop_step. cbv zeta. unfold sock_sendmsg.
+    destruct (retry_top_send_write_waits (concat (firstn iov (b0 :: bufs'))) F ri T s sels H) as [A B].
+    destruct (rr_out (retry (sock_send (concat (firstn iov (b0 :: bufs')))) F ri T s sels)) as [sent T1| |c|]; simpl; try exact A.
+    apply Forall_app. split; [exact A|]. apply IH. exact B.
+Qed.
+
+Lemma send_iter_write_waits : forall drop_empty has_sendmsg iov F fuel ri chunks T s sels,
+  write_blocks_only s ->
+  Forall (fun w => w_write w = true) (sr_waits (send_iter drop_empty has_sendmsg iov F fuel ri chunks T s sels)).
+Proof.
+  intros. unfold send_iter. destruct ((iov <=? 0)%Z || negb has_sendmsg).
+  - unfold send_all_join, send_all. destruct (concat chunks) as [|b d].
+    + unfold send. destruct (retry_top_send_write_waits [] F ri T s sels H) as [A _].
+      destruct (rr_out (retry (sock_send []) F ri T s sels)); exact A.
+    + apply send_all_loop_write_waits. assumption.
+  - apply sendmsg_loop_write_waits. assumption.
+Qed.
